@@ -50,9 +50,13 @@ pub fn counted<I>(id: u32, iter: I) -> I {
     iter
 }
 
-/// Allocation-free body for the few benches whose rows must show no allocation.
+/// Allocation-free body for the few benches whose rows must show no allocation:
+/// invocations are only counted (reported as `QUIET id count` when the log is flushed).
 pub fn quiet(id: u32) {
     cost(COSTS.get(id as usize).copied().unwrap_or(1000));
+    if let Some(c) = QUIET.get(id as usize) {
+        c.fetch_add(1, std::sync::atomic::Ordering::SeqCst);
+    }
 }
 
 pub fn cost(ticks: u64) {
@@ -67,7 +71,13 @@ include!("costs.rs");
 
 pub fn flush() {
     let Some(path) = std::env::var_os("ZOO_LOG") else { return };
-    let lines = std::mem::take(&mut *LOG.lock().unwrap_or_else(|e| e.into_inner()));
+    let mut lines = std::mem::take(&mut *LOG.lock().unwrap_or_else(|e| e.into_inner()));
+    for (id, c) in QUIET.iter().enumerate() {
+        let n = c.swap(0, std::sync::atomic::Ordering::SeqCst);
+        if n > 0 {
+            lines.push(format!("QUIET\t{id}\t{n}"));
+        }
+    }
     if let Ok(mut f) = std::fs::OpenOptions::new().create(true).append(true).open(path) {
         for l in lines {
             let _ = writeln!(f, "{l}");
@@ -141,6 +151,7 @@ pub fn dump_entries() {
         };
         out.push_str(&format!("{{\"kind\":\"group\",{},\"generic\":{}}}\n", meta_json(&g.meta), generic));
     }
+    out.push_str(&format!("{{\"kind\":\"meta\",\"parallelism\":{}}}\n", divan::verif::known_parallelism()));
     let _ = std::fs::write(path, out);
 }
 
@@ -282,7 +293,7 @@ def attr_options(opts):
 
 def add_bench(m, path, indent, raw_name, form="plain", args=None, types=None, consts=None, consts_expr=None,
               type_first=True, options=None, ignore_attr=False, name=None, extern=None, display_module=None,
-              body="hit", bencher_style=None, cost=1000):
+              body="hit", bencher_style=None, cost=1000, pre=None):
     """Emits one #[divan::bench] function into module `path` (list of module names below the crate root).
     Returns the bench dict."""
     pad = " " * indent
@@ -344,6 +355,8 @@ def add_bench(m, path, indent, raw_name, form="plain", args=None, types=None, co
         body_text = "%s %s" % (enter, inner)
     else:
         body_text = "%s;" % call
+    if pre:
+        body_text = pre + " " + body_text
     ext = 'extern "%s" ' % extern if extern else ""
     text_lines = [pad + attr]
     if ignore_attr:
@@ -577,10 +590,46 @@ def display_module(m, module):
     return out
 
 
+def parse_threads_option(v):
+    """The `threads = ...` attribute value as a list of ints (0 = available parallelism)."""
+    v = v.strip()
+    if v.startswith("["):
+        return [int(x) for x in v.strip("[]").split(",") if x.strip()]
+    if v == "true":
+        return [0]
+    if v == "false":
+        return [1]
+    return [int(v)]
+
+
+def effective_options(m, b):
+    """Benchmark's own attribute, else the nearest enclosing bench_group that sets the field."""
+    eff = {}
+    levels = [b["options"]]
+    for i in range(len(b["module"]), 0, -1):
+        g = group_for(m, b["module"][:i])
+        if g:
+            levels.append(g["options"])
+    for field in ("sample_count", "sample_size", "threads", "max_time", "min_time", "skip_ext_time", "items_count", "bytes_count", "chars_count", "cycles_count"):
+        for lv in levels:
+            if field in lv:
+                eff[field] = lv[field]
+                break
+    out = {
+        "sample_count": int(eff["sample_count"]) if "sample_count" in eff else None,
+        "sample_size": int(eff["sample_size"]) if "sample_size" in eff else None,
+        "threads": parse_threads_option(eff["threads"]) if "threads" in eff else None,
+        "max_time_zero": eff.get("max_time") == "0",
+        "counters": {k: int(eff[k].rstrip("u32").rstrip("u64")) for k in ("bytes_count", "chars_count", "cycles_count", "items_count") if k in eff},
+    }
+    return out
+
+
 def cases_of(m):
     """Every runnable case with its display path and what its body must log."""
     cases = []
     for b in m.benches:
+        b["effective"] = effective_options(m, b)
         mods = display_module(m, b["module"])
         base = ["zoo"] + mods + [b["display_name"]]
         # effective ignore: own, else nearest enclosing group that sets it
@@ -635,6 +684,7 @@ codegen-units = 16
 '''
     max_id = max(m.costs) if m.costs else 0
     costs_rs = "pub static COSTS: [u64; %d] = [%s];\n" % (max_id + 1, ", ".join(str(m.costs.get(i, 1000)) for i in range(max_id + 1)))
+    costs_rs += "pub static QUIET: [std::sync::atomic::AtomicU64; %d] = [const { std::sync::atomic::AtomicU64::new(0) }; %d];\n" % (max_id + 1, max_id + 1)
 
     def write_if_changed(path, text):
         if os.path.exists(path) and open(path).read() == text:
